@@ -10,12 +10,13 @@ import (
 )
 
 // Scripted fork scenarios of family pow (C27), in addition to the random trees:
-//   stale-head   a reorganisation-triggering header followed IN THE SAME CALL by a header that extends the old head /
-//                the new head / a third branch / is already known (the head must be re-read for every header of a call)
-//   lower-multi  a shorter but heavier fork takes over (CURRENT_HEADER_HEIGHT goes DOWN, stale main-chain entries stay
-//                above it) and, in the same call, a child of the old (higher) head wins the head back across them
-//   three-way    three branches; after each reorganisation every stored header (of all branches) is re-submitted, one by
-//                one and in a single call: nothing may change and every side header must still have its parent stored
+//
+//	stale-head   a reorganisation-triggering header followed IN THE SAME CALL by a header that extends the old head /
+//	             the new head / a third branch / is already known (the head must be re-read for every header of a call)
+//	lower-multi  a shorter but heavier fork takes over (CURRENT_HEADER_HEIGHT goes DOWN, stale main-chain entries stay
+//	             above it) and, in the same call, a child of the old (higher) head wins the head back across them
+//	three-way    three branches; after each reorganisation every stored header (of all branches) is re-submitted, one by
+//	             one and in a single call: nothing may change and every side header must still have its parent stored
 type scripted struct {
 	g    *hx.Rng
 	r    *hx.Run
@@ -123,9 +124,9 @@ func (f *pow) genScripted(r *hx.Run) {
 			a8 := s.chain(a[6], 2, 1000)
 			switch i % 3 {
 			case 0:
-				s.call(b[5])           // head moves DOWN from root+7 to root+6
-				s.call(a[6], a[5])     // known
-				s.call(a8[0])          // the longer chain wins back across the stale entry
+				s.call(b[5])       // head moves DOWN from root+7 to root+6
+				s.call(a[6], a[5]) // known
+				s.call(a8[0])      // the longer chain wins back across the stale entry
 			case 1:
 				s.call(b[5], a8[0]) // both in one call
 			default:
